@@ -1,4 +1,5 @@
-// Package c07: see harness/ledger (shared Ledger binding).
+// Package c07: see harness/ledger (shared Ledger binding) and kinds.go (nonce discipline per
+// transaction kind, spec/Ledger/NonceKinds.tla).
 package c07
 
 import (
@@ -6,4 +7,11 @@ import (
 	"verifh/ledger"
 )
 
-func init() { core.Register("C07", func(c *core.Ctx) { ledger.Run(c, "C07") }) }
+func init() {
+	core.Register("C07", func(c *core.Ctx) {
+		ledger.Run(c, "C07")
+		if c.Child == "" {
+			nonceKinds(c)
+		}
+	})
+}
